@@ -12,7 +12,7 @@ NEED = ("h4x", "tools")
 RULE = ("three families against the sanitizer-built tool binaries. hdiff: a generated file F (C02 generator, NaN-free "
         "data) must compare equal to itself and to a byte copy (exit 0); for a generated single-point mutation F' "
         "(one element of one dataset / vdata record / image pixel changed through the API, one attribute value "
-        "changed, one dataset added; one file in five holds 20..50 datasets so that the tools' object tables grow) hdiff F F' and hdiff F' F must both report differences (exit 1). hdp: the "
+        "changed, one dataset added; one file in five holds 20..50 datasets so that the tools' object tables grow) hdiff F F' and hdiff F' F must both report differences (exit 1). hdp (one file in ten holds a vdata larger than the 1 MiB transfer buffer): the "
         "numbers printed by dumpsds -d / dumpvd -d / dumpgr -d for every dataset, vdata and image of F are parsed and "
         "must equal, in order, the values the library API returns (harness-written description). hdfimport: "
         "generated TEXT / FP32 / FP64 / IN32 / IN16 / IN08 inputs of rank 2 and 3 with scales and max/min, with "
@@ -68,7 +68,15 @@ def hdiff_case(draw):
 
 @st.composite
 def hdp_case(draw):
-    return {"family": "hdp", "file": draw(c02.strategy_("quick"))}
+    f = draw(c02.strategy_("quick"))
+    if draw(st.integers(0, 9)) == 0:
+        # a vdata larger than the tools' 1 MiB transfer buffer (read and printed in several passes)
+        nf = draw(st.integers(1, 2))
+        f["objs"].append(dict(kind="vd", name="vdbig", fields=[["f%d" % k, draw(st.sampled_from(["int32", "int16", "float32"])), 1]
+                                                               for k in range(nf)],
+                              writes=[[draw(st.sampled_from([140001, 270000, 400003])), f["nsess"] - 1]], sess=f["nsess"] - 1,
+                              blocksize=0, attr=False, cls="", il=0))
+    return {"family": "hdp", "file": f}
 
 
 @st.composite
